@@ -188,12 +188,16 @@ def run(ctx):
         for ln in d.split(b"\n"):
             if not ln:
                 continue
-            k, c = ln.split(b"\t")
+            k, _, c = ln.partition(b"\t")
             if o["acgt"]:
-                x = 0
-                for ch in k:
-                    x = x * 4 + b"ACGT".index(bytes([ch]))
-                k = str(x).encode()
+                # a k-mer that is not ACGT text stays as it is (and then differs from the numeric rendering's line)
+                if k and all(ch in b"ACGT" for ch in k):
+                    x = 0
+                    for ch in k:
+                        x = x * 4 + b"ACGT".index(bytes([ch]))
+                    k = str(x).encode()
+                else:
+                    k = b"not-acgt-text:" + k
             out.append(k + b"\t" + c)
         return b"\n".join(out)
     rel(ctr, "acgt", [False, True], "acgt", decode_acgt)
